@@ -43,6 +43,17 @@ def shapes(tier):
         for n in (1, 2):
             for nt in (1, 2):
                 out.append({"poly": npoly, "n": n, "nt": nt, "jitter_col": (npoly + n) % 2 == 0, "dunit": "m/s" if nt == 2 else "km/s"})
+    # call history on ONE samples object: orbits / likelihood first, then wrap_K() (in-place edit of K and omega), then again
+    out.append({"poly": 1, "n": 1, "nt": 1, "jitter_col": False, "dunit": "km/s", "history": "wrap_K"})
+    out.append({"poly": 2, "n": 2, "nt": 1, "jitter_col": True, "dunit": "km/s", "history": "wrap_K"})
+    # ... or a column re-assigned through __setitem__ in between
+    out.append({"poly": 2, "n": 1, "nt": 2, "jitter_col": False, "dunit": "m/s", "history": "setitem"})
+    # the reference epoch the kernel uses (data._t_ref_bmjd) is the one the samples inherit (data.t_ref)
+    for inp, sizes in (("single", [2]), ("list", [1, 1]), ("list", [2, 1]), ("dict", [1, 2])):
+        for mode in ("default", "common", "distinct", "false"):
+            if inp == "single" and mode == "distinct":
+                continue
+            out.append({"family": "tref", "input": inp, "sizes": sizes, "tref": mode, "poly": 2})
     return out
 
 
@@ -106,9 +117,87 @@ class PolynomialRVTrend:
         return out
 
 
+def _run_tref(shape, res, sink):
+    """validate_prepare_data for one / several sources with default, common explicit, distinct explicit or disabled
+    reference epochs: the Time the posterior samples inherit (all_data.t_ref) and the float the kernel and the trend
+    columns use (all_data._t_ref_bmjd) are the same epoch -- also after copy() and slicing of the data."""
+    st = stack.Stack(load=("prior_helpers", "likelihood_helpers"))
+    st.load("data_helpers")
+    st.load("data")
+    RVData = st.data.RVData
+    sizes = shape["sizes"]
+    K = len(sizes)
+
+    def harness():
+        common = units.Time(core.real("tref_common"))
+        srcs, cells, trefs = [], [], []
+        for k, n in enumerate(sizes):
+            t = [core.real("t_%d_%d" % (k, j)) for j in range(n)]
+            rv = [core.real("rv_%d_%d" % (k, j)) for j in range(n)]
+            err = [core.real("err_%d_%d" % (k, j)) for j in range(n)]
+            for e in err:
+                core.assume(e > 0)
+            for j in range(n - 1):
+                core.assume(t[j] < t[j + 1])
+            if k:
+                core.assume(cells[-1][0][-1] < t[0])      # surveys do not interleave (interleaving is C08's subject)
+            tr = {"default": None, "common": common, "distinct": units.Time(core.real("tref_%d" % k)), "false": False}[shape["tref"]]
+            trefs.append(tr)
+            srcs.append(RVData(symnp.SymArray(symnp._obj(t), symnp._F8), units.Quantity(symnp.SymArray(symnp._obj(rv), symnp._F8), units.km / units.s),
+                               units.Quantity(symnp.SymArray(symnp._obj(err), symnp._F8), units.km / units.s), t_ref=tr))
+            cells.append((t, rv, err))
+        if shape["input"] == "single":
+            data = srcs[0]
+        elif shape["input"] == "list":
+            data = list(srcs)
+        else:
+            data = {k_: d for k_, d in zip(["b_survey", "a_survey", "c_survey"], srcs)}
+        all_data, ids, trend_M = st.data_helpers.validate_prepare_data(data, shape["poly"], K - 1)
+        return cells, trefs, all_data, trend_M, all_data.copy(), all_data[:1]
+
+    ex = core.Explorer(max_paths=400)
+    twin = False
+    for path in ex.paths(harness):
+        core.Ctx.cur = path.ctx
+        try:
+            r, _, _ = path.check(core.SB(z3.BoolVal(False)))
+            twin = twin or r == "sat"
+            if path.raised is not None:
+                sink.check(path, "tref.no_exception", core.SB(z3.BoolVal(False)), site="validate_prepare_data", describe=lambda m: {"raised": repr(path.raised)[:300]})
+                continue
+            cells, trefs, all_data, trend_M, dcopy, dslice = path.result
+
+            def desc(m):
+                mv = lambda x: str(core.model_value(m, x))
+                return {"t": [[mv(x) for x in c[0]] for c in cells], "tref": [None if tr in (None, False) else mv(tr.tcb._v) for tr in trefs]}
+
+            def consistent(d):
+                if d.t_ref is None:
+                    return L(d._t_ref_bmjd == 0) if core.is_sym(d._t_ref_bmjd) else z3.BoolVal(d._t_ref_bmjd == 0)
+                return L(d.t_ref.tcb._v) == L(d._t_ref_bmjd)
+            sink.check(path, "tref.samples_epoch_is_kernel_epoch", core.SB(consistent(all_data)), site="validate_prepare_data.t_ref", describe=desc)
+            sink.check(path, "tref.copy", core.SB(z3.And(consistent(dcopy), L(dcopy._t_ref_bmjd) == L(all_data._t_ref_bmjd))), site="RVData.copy", describe=desc)
+            # (a slice is a new data set: whether it keeps the parent's epoch is not part of the property; its two epochs must agree)
+            sink.check(path, "tref.slice", core.SB(consistent(dslice)), site="RVData.__getitem__", describe=desc)
+            # trend column 1 is (t - that epoch)
+            M = trend_M.a
+            tt = all_data._t_bmjd.a
+            ncol0 = 1 + (K - 1)
+            cl = [L(M[r_, ncol0]) == L(tt[r_] - all_data._t_ref_bmjd) for r_ in range(len(tt))]
+            sink.check(path, "tref.trend_column", core.SB(z3.And(cl)), site="get_trend_design_matrix", describe=desc)
+            add_witness(res, path, desc, site="tref", limit=1)
+        finally:
+            core.Ctx.cur = None
+    res["twin_ok"] = twin
+    fill_explorer(res, ex)
+    return res
+
+
 def run_shape(shape, tier):
     res = new_result(shape)
     sink = VCSink(res, PROPERTY)
+    if shape.get("family") == "tref":
+        return _run_tref(shape, res, sink)
     st = stack.Stack(load=("prior_helpers", "likelihood_helpers", "samples"), twobody={"KeplerOrbit": KeplerOrbit, "PolynomialRVTrend": PolynomialRVTrend})
     st.load("data_helpers")
     st.load("data")
@@ -141,12 +230,31 @@ def run_shape(shape, tier):
             core.assume(e_ > 0)
         data = st.data.RVData(symnp.SymArray(symnp._obj(t), symnp._F8), units.Quantity(symnp.SymArray(symnp._obj(y), symnp._F8), dunit),
                               units.Quantity(symnp.SymArray(symnp._obj(err), symnp._F8), dunit), t_ref=tref)
+        hist = shape.get("history")
+        cells0 = dict(cells)
+        if hist:
+            for i in range(n):
+                s.get_orbit(i).radial_velocity(data.t)
+            s.ln_unmarginalized_likelihood(data)
+            if hist == "wrap_K":
+                s.wrap_K()
+            else:
+                for c in ("K", "P", "e"):
+                    cells[c] = [core.real("%s2_%d" % (c, i)) for i in range(n)]
+                    cells0[c + "2"] = cells[c]
+                    s[c] = units.Quantity(symnp.SymArray(symnp._obj(cells[c]), symnp._F8), un[c])
+                for i in range(n):
+                    core.assume(cells["P"][i] > 0)
+                    core.assume(cells["e"][i] >= 0)
+                    core.assume(cells["e"][i] < 1)
+            # the rows as they are stored NOW are what must denote the curve
+            cells = {c: [s[c].to_value(un[c]).a[i] for i in range(n)] for c in cols}
         orbits = [s.get_orbit(i) for i in range(n)]
         rvs = [o.radial_velocity(data.t) for o in orbits]
         lls = s.ln_unmarginalized_likelihood(data)
         # the kernel's trend columns for the same data (C01-V3 relates them to the kernel state)
         tm = st.likelihood_helpers.get_trend_design_matrix(data, None, npoly)
-        return s, cells, un, tref, t, y, err, data, orbits, rvs, lls, tm
+        return s, cells, un, tref, t, y, err, data, orbits, rvs, lls, tm, cells0
 
     ex = core.Explorer(max_paths=50, solver_timeout_ms=60000)
     twin = False
@@ -158,10 +266,10 @@ def run_shape(shape, tier):
             if path.raised is not None:
                 sink.check(path, "no_exception", core.SB(z3.BoolVal(False)), site="samples", describe=lambda m: {"raised": repr(path.raised)[:300]})
                 continue
-            s, cells, un, tref, t, y, err, data, orbits, rvs, lls, tm = path.result
+            s, cells, un, tref, t, y, err, data, orbits, rvs, lls, tm, cells0 = path.result
 
             def desc(m):
-                return {"cells": {c: [str(core.model_value(m, x)) for x in v] for c, v in cells.items()}, "t": [str(core.model_value(m, x)) for x in t],
+                return {"cells": {c: [str(core.model_value(m, x)) for x in v] for c, v in cells0.items()}, "t": [str(core.model_value(m, x)) for x in t],
                         "y": [str(core.model_value(m, x)) for x in y], "err": [str(core.model_value(m, x)) for x in err], "t_ref": str(core.model_value(m, tref._v))}
             fd = kms.to(dunit)
             for i in range(n):
@@ -236,6 +344,8 @@ def replay(cand):
     from thejoker.likelihood_helpers import get_trend_design_matrix
     shape = cand["shape"]
     m = cand.get("model") or {}
+    if shape.get("family") == "tref":
+        return _replay_tref(shape, m)
     if "cells" not in m:
         return {"reproduced": False, "detail": "no concrete input"}
     f = lambda x: float(Fraction(x))
@@ -249,6 +359,7 @@ def replay(cand):
     un = {"P": u.day, "e": u.one, "omega": u.rad, "M0": u.rad, "K": u.km / u.s, "s": u.m / u.s}
     for k in range(npoly):
         un["v%d" % k] = u.km / u.s / u.day ** k
+    c2 = {k[:-1]: c.pop(k) for k in ("K2", "P2", "e2") if k in c}
     for k, v in c.items():
         s[k] = v * un[k]
     t = 57000.0 + np.sort(np.array([f(x) for x in m["t"]]))
@@ -257,6 +368,21 @@ def replay(cand):
     data = RVData(Time(t, format="mjd", scale="tcb"), y * dunit, err * dunit, t_ref=tref)
     bad = []
     try:
+        if shape.get("history"):
+            # the shape's call history on the one samples object
+            for i in range(n):
+                s.get_orbit(i).radial_velocity(data.t)
+            s.ln_unmarginalized_likelihood(data)
+            if shape["history"] == "wrap_K":
+                s.wrap_K()
+            else:
+                for k, v in c2.items():
+                    if k == "P":
+                        v = np.abs(v) + (v == 0) * 5.0
+                    if k == "e":
+                        v = np.clip(np.abs(v), 0, 0.9)
+                    s[k] = v * un[k]
+            c = {k: np.asarray(s[k].to_value(un[k]), dtype=float) for k in c}     # the rows as stored now
         tm = get_trend_design_matrix(data, None, npoly)
         lls = s.ln_unmarginalized_likelihood(data)
         for i in range(n):
@@ -273,6 +399,58 @@ def replay(cand):
             want = np.sum(-0.5 * (np.log(2 * np.pi * var) + (mrv - y) ** 2 / var))
             if not np.isclose(lls[i], want, rtol=1e-7, atol=1e-7):
                 bad.append("row %d: ln_unmarginalized_likelihood=%r, Normal sum with variance sigma^2+s^2 = %r" % (i, lls[i], want))
+    except Exception as e:
+        return {"reproduced": True, "detail": "%s: %s" % (type(e).__name__, str(e)[:200])}
+    return {"reproduced": bool(bad), "detail": "; ".join(bad[:3])[:900] or "real build agrees"}
+
+
+def _replay_tref(shape, m):
+    """real validate_prepare_data / RVData: the epoch the samples inherit vs the epoch the kernel and the trend columns use,
+    and the curve of a hand-built row reconstructed at samples.t_ref vs the kernel convention"""
+    import numpy as np
+    import astropy.units as u
+    from astropy.time import Time
+    from twobody.wrap import cy_rv_from_elements
+    from thejoker.data import RVData
+    from thejoker.data_helpers import validate_prepare_data
+    from thejoker.samples import JokerSamples
+    f = lambda x: float(Fraction(x))
+    sizes = shape["sizes"]
+    K = len(sizes)
+    srcs = []
+    base = 57000.0
+    for k, n in enumerate(sizes):
+        if "t" in m:
+            t = base + np.array([f(x) for x in m["t"][k]])
+        else:
+            t = base + 10.0 * k + np.arange(n) * 1.5 + 2.0
+        tm_ = (m.get("tref") or [None] * K)[k]
+        tr = {"default": None, "false": False}.get(shape["tref"], 0)
+        if tr == 0:
+            tr = Time(base + (f(tm_) if tm_ is not None else -7.25), format="mjd", scale="tcb")
+            if shape["tref"] == "common" and srcs:
+                tr = srcs[0].t_ref
+        srcs.append(RVData(Time(t, format="mjd", scale="tcb"), (np.arange(n) + 1.0 + k) * u.km / u.s, np.full(n, 0.5) * u.km / u.s, t_ref=tr))
+    data = srcs[0] if shape["input"] == "single" else (list(srcs) if shape["input"] == "list" else dict(zip(["b_survey", "a_survey", "c_survey"], srcs)))
+    bad = []
+    try:
+        all_data, ids, trend_M = validate_prepare_data(data, shape["poly"], K - 1)
+        for tag, d in (("validate_prepare_data", all_data), ("copy", all_data.copy()), ("slice", all_data[:1])):
+            if d.t_ref is None:
+                if d._t_ref_bmjd != 0:
+                    bad.append("%s: t_ref is None but _t_ref_bmjd=%r" % (tag, d._t_ref_bmjd))
+            elif abs(d.t_ref.tcb.mjd - d._t_ref_bmjd) > 1e-9:
+                bad.append("%s: samples would inherit t_ref=MJD %.4f while the kernel/trend use MJD %.4f" % (tag, d.t_ref.tcb.mjd, d._t_ref_bmjd))
+        if all_data.t_ref is not None:
+            s = JokerSamples(poly_trend=shape["poly"], n_offsets=0, t_ref=all_data.t_ref)
+            row = {"P": 7.3 * u.day, "e": 0.3 * u.one, "omega": 0.7 * u.rad, "M0": 1.1 * u.rad, "K": 4.0 * u.km / u.s, "v0": 1.0 * u.km / u.s, "v1": 0.25 * u.km / u.s / u.day}
+            for k_, v in row.items():
+                s[k_] = np.atleast_1d(v.value) * v.unit
+            got = s.get_orbit(0).radial_velocity(all_data.t).to_value(u.km / u.s)
+            tt = np.ascontiguousarray(all_data._t_bmjd)
+            kern = 4.0 * np.asarray(cy_rv_from_elements(tt, 7.3, 1.0, 0.3, 0.7, 1.1, all_data._t_ref_bmjd, 1e-12, 256)) + 1.0 + 0.25 * trend_M[:, K]
+            if not np.allclose(got, kern, rtol=1e-7, atol=1e-7):
+                bad.append("row reconstructed at samples.t_ref gives %s km/s, the sampler's model (kernel epoch, trend column) %s km/s" % (got.tolist(), kern.tolist()))
     except Exception as e:
         return {"reproduced": True, "detail": "%s: %s" % (type(e).__name__, str(e)[:200])}
     return {"reproduced": bool(bad), "detail": "; ".join(bad[:3])[:900] or "real build agrees"}
